@@ -4,9 +4,12 @@
 case "${1:-quick}" in
   replay)
     build_mapsim "$B/C06"
+    build_clisim "$B/C06/clisim.test"
+    export VERIF_CLISIM_BIN="$B/C06/clisim.test" VERIF_PP_MAPSIM="$B/C06/pp"
     exec "$B/C06/vcheck" replay "$2" ;;
   quick|thorough)
     build_mapsim "$B/C06"
-    export VERIF_PP_MAPSIM="$B/C06/pp"
+    build_clisim "$B/C06/clisim.test"
+    export VERIF_PP_MAPSIM="$B/C06/pp" VERIF_CLISIM_BIN="$B/C06/clisim.test"
     exec "$B/C06/vcheck" run C06 "$1" ;;
 esac
